@@ -1448,3 +1448,381 @@ func (c *Check) cutoffIsMagnitude() {
 		c.ok("C05-R12", "cutoff-magnitude:none", "", "package report computes no cutoff from NodeFraction/EdgeFraction", "nothing to check")
 	}
 }
+
+// kernelSplitIsHalf (C13-R10): GetBase tells a user-mode executable from a kernel image by the
+// half of the 64-bit address space its mapping starts in.  Every large constant that the
+// mapping start is compared with in GetBase and its helpers is 1<<63: a lower limit (the
+// 47-bit user space of one architecture) classifies the high user mappings of other
+// architectures as kernel and gives them a base of 0 or an error.
+func (c *Check) kernelSplitIsHalf() {
+	p := c.P
+	f := c.anchorFn("C13-R10", "internal/elfexec", "GetBase")
+	if f == nil {
+		return
+	}
+	n := 0
+	for _, g := range withHelpers(f, 2) {
+		for _, b := range g.Blocks {
+			for _, ins := range b.Instrs {
+				cmp, ok := ins.(*ssa.BinOp)
+				if !ok {
+					continue
+				}
+				switch cmp.Op {
+				case token.LSS, token.LEQ, token.GTR, token.GEQ:
+				default:
+					continue
+				}
+				for _, pr := range [][2]ssa.Value{{cmp.X, cmp.Y}, {cmp.Y, cmp.X}} {
+					k, ok := pr[1].(*ssa.Const)
+					if !ok || k.Value == nil {
+						continue
+					}
+					bt, ok := k.Type().Underlying().(*types.Basic)
+					if !ok || bt.Kind() != types.Uint64 {
+						continue
+					}
+					if _, isPar := pr[0].(*ssa.Parameter); !isPar {
+						continue
+					}
+					u := k.Uint64()
+					if u < 1<<40 {
+						continue
+					}
+					n++
+					key := fmt.Sprintf("kernel-split:%s#%d", fnName(g), n)
+					if u == 1<<63 {
+						c.ok("C13-R10", key, p.relFile(cmp.Pos()), "the user/kernel split is the middle of the 64-bit address space", "the mapping start is compared with 1<<63")
+					} else {
+						c.bad("C13-R10", key, p.relFile(cmp.Pos()), fmt.Sprintf("%s compares the mapping start with %#x instead of 1<<63: user-mode mappings above that limit (high mmap areas, 52- and 56-bit address spaces) are treated as kernel mappings and translated with the wrong base", fnName(g), u))
+					}
+				}
+			}
+		}
+	}
+	if n == 0 {
+		c.ok("C13-R10", "kernel-split:none", p.relFile(f.Pos()), "GetBase compares the mapping start with no large constant", "the split is expressed otherwise")
+	}
+}
+
+// unsampledRateOne (C14-R12): a heap profile sampled at rate 1 (or with an unknown rate
+// below 1) recorded every allocation: its counts are returned as they are.  Evaluating the
+// branches of scaleHeapSample with its rate parameter bound to 1 (and to 0), no reachable
+// return yields a value computed in floating point.
+func (c *Check) unsampledRateOne() {
+	p := c.P
+	f := c.anchorFn("C14-R12", "profile", "scaleHeapSample")
+	if f == nil || len(f.Params) == 0 {
+		return
+	}
+	rate := f.Params[len(f.Params)-1]
+	for _, bound := range []int64{1, 0} {
+		assume := func(cond ssa.Value) int {
+			cmp, ok := cond.(*ssa.BinOp)
+			if !ok {
+				return 0
+			}
+			l, r, op := cmp.X, cmp.Y, cmp.Op
+			if l != ssa.Value(rate) {
+				if r != ssa.Value(rate) {
+					return 0
+				}
+				l, r = r, l
+				switch op {
+				case token.LSS:
+					op = token.GTR
+				case token.GTR:
+					op = token.LSS
+				case token.LEQ:
+					op = token.GEQ
+				case token.GEQ:
+					op = token.LEQ
+				}
+			}
+			k, ok := constInt(r)
+			if !ok {
+				return 0
+			}
+			res := false
+			switch op {
+			case token.LSS:
+				res = bound < k
+			case token.LEQ:
+				res = bound <= k
+			case token.GTR:
+				res = bound > k
+			case token.GEQ:
+				res = bound >= k
+			case token.EQL:
+				res = bound == k
+			case token.NEQ:
+				res = bound != k
+			default:
+				return 0
+			}
+			if res {
+				return 1
+			}
+			return -1
+		}
+		reach := reachUnder(f, assume)
+		bad := ""
+		for _, b := range f.Blocks {
+			if !reach[b] {
+				continue
+			}
+			ret, ok := b.Instrs[len(b.Instrs)-1].(*ssa.Return)
+			if !ok {
+				continue
+			}
+			for _, r := range ret.Results {
+				if fromFloat(r, map[ssa.Value]bool{}, 0) {
+					bad = p.relFile(ret.Pos())
+				}
+			}
+		}
+		key := fmt.Sprintf("rate-%d-unscaled", bound)
+		if bad == "" {
+			c.ok("C14-R12", key, p.relFile(f.Pos()), fmt.Sprintf("with a sampling rate of %d the counts of a heap record are returned unscaled", bound), "with the rate bound to that value no reachable return is computed in floating point")
+		} else {
+			c.bad("C14-R12", key, bad, fmt.Sprintf("scaleHeapSample reaches its scaling formula with rate %d: every allocation was sampled, yet small objects are multiplied by 1/(1-exp(-size)) (1.58 for 1-byte objects)", bound))
+		}
+	}
+}
+
+func fromFloat(v ssa.Value, seen map[ssa.Value]bool, d int) bool {
+	if seen[v] || d > 8 {
+		return false
+	}
+	seen[v] = true
+	switch x := v.(type) {
+	case *ssa.Convert:
+		if bt, ok := x.X.Type().Underlying().(*types.Basic); ok && bt.Info()&types.IsFloat != 0 {
+			return true
+		}
+		return fromFloat(x.X, seen, d+1)
+	case *ssa.Phi:
+		for _, e := range x.Edges {
+			if fromFloat(e, seen, d+1) {
+				return true
+			}
+		}
+	case *ssa.BinOp:
+		return fromFloat(x.X, seen, d+1) || fromFloat(x.Y, seen, d+1)
+	case *ssa.UnOp:
+		if al, ok := x.X.(*ssa.Alloc); ok && x.Op == token.MUL {
+			whole, _ := allocStores(al)
+			for _, w := range whole {
+				if fromFloat(w, seen, d+1) {
+					return true
+				}
+			}
+		}
+	}
+	return false
+}
+
+// replacerAccumulates (C14-R13): in the trailing memory map every attr=value line defines a
+// $attr for the mappings that follow, and all definitions seen so far apply.  A
+// strings.NewReplacer built inside the scanning loop takes its pairs from a list that lives
+// across iterations; built from the current line alone it forgets the earlier definitions.
+func (c *Check) replacerAccumulates() {
+	p := c.P
+	f := c.anchorFn("C14-R13", "profile", "parseProcMapsFromScanner")
+	if f == nil {
+		return
+	}
+	n := 0
+	for _, g := range withHelpers(f, 1) {
+		for _, b := range g.Blocks {
+			for _, ins := range b.Instrs {
+				call, ok := ins.(*ssa.Call)
+				if !ok || call.Call.StaticCallee() == nil || call.Call.StaticCallee().String() != "strings.NewReplacer" || len(call.Call.Args) != 1 {
+					continue
+				}
+				hdr := loopHeaderAround(b)
+				if hdr == nil {
+					continue
+				}
+				if k, isK := call.Call.Args[0].(*ssa.Const); isK && k.Value == nil {
+					continue // NewReplacer(): the empty replacer
+				}
+				n++
+				key := fmt.Sprintf("replacer-pairs:%s#%d", fnName(g), n)
+				// a fresh array filled in this iteration (a literal list of the current pair)?
+				fresh := false
+				if sl, ok := call.Call.Args[0].(*ssa.Slice); ok {
+					if al, ok := sl.X.(*ssa.Alloc); ok && al.Heap && naturalLoop(hdr)[al.Block()] {
+						fresh = true
+					}
+				}
+				if fresh {
+					c.bad("C14-R13", key, p.relFile(call.Pos()), fnName(g)+" rebuilds the $attr replacer from the pairs of the current line only: after a second attr=value line the first definition is forgotten and mappings that use it keep a literal $attr in their file name")
+				} else {
+					c.ok("C14-R13", key, p.relFile(call.Pos()), "the $attr replacer is rebuilt from a list that outlives the line", "its pairs are not a list made in the same iteration")
+				}
+			}
+		}
+	}
+	if n == 0 {
+		c.ok("C14-R13", "replacer-pairs:none", p.relFile(f.Pos()), "no strings.NewReplacer is built inside the scanning loop", "definitions are kept otherwise")
+	}
+}
+
+// signRestoredOnEveryReturn (C15-R13): conversion commutes with negation.  When Scale strips
+// the sign of its value in place (value = -value) instead of recursing, every return whose
+// result is computed from the stripped value also depends on the remembered sign: a path that
+// returns float64(value) as is gives a negative count back as a positive one.
+func (c *Check) signRestoredOnEveryReturn() {
+	p := c.P
+	f := c.anchorFn("C15-R13", "internal/measurement", "Scale")
+	if f == nil || len(f.Params) == 0 {
+		return
+	}
+	val := f.Params[0]
+	var mags []*ssa.Phi
+	for _, b := range f.Blocks {
+		for _, ins := range b.Instrs {
+			ph, ok := ins.(*ssa.Phi)
+			if !ok {
+				break
+			}
+			hasPar, hasNeg := false, false
+			for _, e := range ph.Edges {
+				if e == ssa.Value(val) {
+					hasPar = true
+				}
+				if u, ok := e.(*ssa.UnOp); ok && u.Op == token.SUB && u.X == ssa.Value(val) {
+					hasNeg = true
+				}
+			}
+			if hasPar && hasNeg {
+				mags = append(mags, ph)
+			}
+		}
+	}
+	if len(mags) == 0 {
+		c.ok("C15-R13", "sign-restored", p.relFile(f.Pos()), "Scale does not strip the sign of its value in place", "negative values are handled by recursion on the negation, which commutes by construction")
+		return
+	}
+	for _, m := range mags {
+		var signs []ssa.Value
+		for _, ins := range m.Block().Instrs {
+			if ph, ok := ins.(*ssa.Phi); ok && ph != m {
+				signs = append(signs, ph)
+			}
+		}
+		bad := ""
+		for _, b := range f.Blocks {
+			ret, ok := b.Instrs[len(b.Instrs)-1].(*ssa.Return)
+			if !ok || len(ret.Results) == 0 {
+				continue
+			}
+			r := ret.Results[0]
+			if !dependsOnValue(r, m, map[ssa.Value]bool{}, 0) {
+				continue
+			}
+			okSign := false
+			for _, s := range signs {
+				if dependsOnValue(r, s, map[ssa.Value]bool{}, 0) {
+					okSign = true
+				}
+			}
+			if !okSign {
+				bad = p.relFile(ret.Pos())
+			}
+		}
+		if bad != "" {
+			c.bad("C15-R13", "sign-restored", bad, "Scale strips the sign of its value and a return yields the stripped value without putting the sign back: Scale(-v, u, t) == +Scale(v, u, t) for units outside the known families (counts, objects, samples), so negative diff values print as positive")
+		} else {
+			c.ok("C15-R13", "sign-restored", p.relFile(m.Pos()), "the sign stripped from the value is restored on every return that uses the stripped value", "each such return also depends on the sign merged at the same point")
+		}
+	}
+}
+
+// savedConfigFromCurrent (C19-R7): saving a configuration under a name stores the options in
+// force plus those in the request, whether or not the name exists.  Every applyURL call made
+// on behalf of setConfig is on a copy obtained from currentConfig(), never on an entry of the
+// stored list: applied in place, the options the request does not mention keep the values
+// saved earlier instead of the current ones.
+func (c *Check) savedConfigFromCurrent() {
+	p := c.P
+	f := c.anchorFn("C19-R7", "internal/driver", "setConfig")
+	cur := p.Func("internal/driver", "currentConfig")
+	if f == nil || cur == nil {
+		return
+	}
+	n := 0
+	forEachFuncAndAnon(f, func(g *ssa.Function) {
+		for _, b := range g.Blocks {
+			for _, ins := range b.Instrs {
+				call, ok := ins.(*ssa.Call)
+				if !ok || call.Call.StaticCallee() == nil || call.Call.StaticCallee().Name() != "applyURL" || len(call.Call.Args) == 0 {
+					continue
+				}
+				n++
+				key := fmt.Sprintf("saved-from-current#%d", n)
+				recv := call.Call.Args[0]
+				okRecv := false
+				root := recv
+				if fv, isFV := root.(*ssa.FreeVar); isFV {
+					if b := freeVarBinding(fv); b != nil {
+						root = b
+					}
+				}
+				if al, isAl := root.(*ssa.Alloc); isAl {
+					whole, _ := allocStores(al)
+					okRecv = len(whole) > 0
+					for _, w := range whole {
+						if wc, isCall := w.(*ssa.Call); !isCall || wc.Call.StaticCallee() != cur {
+							okRecv = false
+						}
+					}
+				}
+				if okRecv {
+					c.ok("C19-R7", key, p.relFile(call.Pos()), "the request's options are applied to a copy of the configuration in force", "the receiver of applyURL is a local assigned from currentConfig()")
+				} else {
+					c.bad("C19-R7", key, p.relFile(call.Pos()), fnName(g)+" applies the request's options to "+describeValue(recv)+" rather than to a copy of the configuration in force: saving under an existing name keeps the old saved values of every option the URL does not mention, so the view restored later is not the one that was saved")
+				}
+			}
+		}
+	})
+	if n == 0 {
+		c.undecided("C19-R7", "saved-from-current", p.relFile(f.Pos()), "setConfig no longer applies the request to a configuration through applyURL")
+	}
+}
+
+// unitFromDisplayedNodeValues (C15-R12, displayed-values): the output unit is picked from
+// the numbers the report prints.  selectOutputUnit (and its helpers) reads a node's weight
+// through FlatValue/CumValue, which apply the mean divisor, never from the Flat/Cum fields:
+// with -mean the sums are larger than what is printed by the divisor, and the unit chosen for
+// them shows every value as 0 or 0.01.
+func (c *Check) unitFromDisplayedNodeValues() {
+	p := c.P
+	f := p.Func("internal/report", "(*Report).selectOutputUnit")
+	if f == nil {
+		return // reported by outputUnitFromDisplayedValues
+	}
+	bad := ""
+	n := 0
+	for _, g := range withHelpers(f, 2) {
+		if fnPkgPath(g) != modPath+"/internal/report" {
+			continue
+		}
+		n++
+		for _, b := range g.Blocks {
+			for _, ins := range b.Instrs {
+				if fa, ok := ins.(*ssa.FieldAddr); ok {
+					if T, F := fieldOf(fa.X.Type(), fa.Field); T == "graph.Node" && (F == "Flat" || F == "Cum") {
+						bad = "Node." + F + " at " + p.relFile(fa.Pos())
+					}
+				}
+			}
+		}
+	}
+	if bad != "" {
+		c.bad("C15-R12", "displayed-values", p.relFile(f.Pos()), "selectOutputUnit reads "+bad+" directly: with a mean divisor the report prints sum/divisor (FlatValue/CumValue) but the unit is chosen for the undivided sum, so values of a few microseconds are shown in a unit where they round to 0")
+	} else {
+		c.ok("C15-R12", "displayed-values", p.relFile(f.Pos()), "the output unit is chosen from the values as displayed", fmt.Sprintf("no direct read of Node.Flat/Node.Cum in selectOutputUnit and its %d helper(s) in package report", n-1))
+	}
+}
